@@ -348,6 +348,11 @@ def run(ctx):
     from ..smimpl import index as _index14
     rule_activation_balance(ctx, _index14(), mir, rid="R01.14")
 
+    # ------------------------------------------------------------------ R01.15 (= R13.2)
+    # text captured for handlers is re-encoded: the encoder must learn of a <meta> switch no matter which handlers exist
+    from .c13 import rule_encoding_switch
+    rule_encoding_switch(ctx, mir, rid="R01.15")
+
     ctx.not_decided += ["bytes of captured text surviving decode/encode (stated exception of the property)", "arithmetic of Arena::shift / init_with (memory module unit tests)"]
     return ("Structural conditions of 'lexemes and raw gaps tile every chunk exactly once': construction sites and the five writers of "
             "Lexer.lexeme_start, EOF leaves of all %d automaton states, commit order and flush ordering on every CFG path of the dispatcher / "
